@@ -574,6 +574,12 @@ BUILDUPS = [
     ("format_starred_nested", ["v = '{}{}'.format(*[*['a'], 'b'])"]),
     ("format_starred_name", ["v = '{}'.format(*w)"]),
     ("format_starred_bad", ["v = '{}{}'.format(*['a', foo()])"]),
+    ("format_starred_order", ["a.b, k = 1, 2", "v = '{}{}'.format(*[k], *[foo()])"]),
+    ("format_starred_order_rev", ["a.b, k = 1, 2", "v = '{}{}'.format(*[foo()], *[k])"]),
+    ("format_starred_bfs", ["a.b, k = 1, 2", "v = '{}{}'.format(*[k], foo())"]),
+    ("format_starred_bfs_nested", ["a.b, k = 1, 2", "v = '{}{}'.format(*[*[k]], *[foo()])"]),
+    ("format_arg_crash_first", ["a.b, k = 1, 2", "v = '{}{}'.format(k, foo())"]),
+    ("format_arg_crash_later", ["a.b, k = 1, 2", "v = '{}{}'.format(foo(), k)"]),
     ("format_nested_call", ["v = '{}'.format('{}'.format('a'))"]),
     ("format_nested_bad", ["v = '{}'.format('{}'.format(foo()))"]),
     ("format_of_name", ["fmt = '{}'", "v = fmt.format('a')"]),
@@ -755,6 +761,7 @@ def safe_programs(rng, tier):
             for (sname, stpl) in [s for s in SCOPES if s[0] in ("module", "func", "func_param_v", "method", "in_if")]:
                 body = ["fmt = '{}'"] + list(stmts) + ["mark_safe(%s)" % arg.replace("\n    ", "\n")]
                 full.append(prog("\n".join(std[0]) + "\n" + in_scope(stpl, body), ["B703"]))
+    n_args = len(full)
     # 3. names and import spellings
     calls = ["F(v)", "F('lit')", "F()", "F(s=v)", "F(w)", "F(foo())", "F('a%s' % v)", "F('{}'.format(w))", "F(*a)", "F(**k)"]
     for (imps, f) in SAFE_NAMES:
@@ -776,7 +783,7 @@ def safe_programs(rng, tier):
     full.append(prog("mark_safe(v)\nfrom django.utils.safestring import mark_safe\nmark_safe(v)", ["B703"]))
     full.append(prog("def f():\n    from django.utils import safestring\nmark_safe(v)", ["B703"]))
     if tier == "quick":
-        return pick(rng, full[:n_core], 420) + pick(rng, full[n_core:], 330)
+        return pick(rng, full[:n_core], 420) + pick(rng, full[n_core:n_args], 200) + full[n_args:]
     return full
 
 
